@@ -63,7 +63,8 @@ theorem whole_exit_sim (env : Env) (haddr : Nat → Option Nat) (um ud : Bool) (
     (hret : BitVec.ofNat 64 retAddr ≠ c.retSentinel) (hretlt : retAddr < 2 ^ 64)
     (hrel : whole_Rel c env.prog L retAddr top σ s) (hstep : EngineSem.jitStep env s = .done r0 s') :
     ∃ σ', stepsN c 1 σ = some σ' ∧ σ'.rip = retAddr ∧ σ'.get 0 = r0 ∧ MemRel σ'.mem s'.mem ∧
-      (σ'.get X86.RSP).toNat = s'.mem.stack.base ∧ topBytes σ' s' = some top := by
+      (σ'.get X86.RSP).toNat = s'.mem.stack.base ∧ topBytes σ' s' = some top ∧
+      σ'.log = σ.log ∧ σ'.misaligned = σ.misaligned ∧ s'.log = s.log := by
   obtain ⟨hrel0, htop, ⟨i, hstart⟩, ⟨a, hloc, hrip⟩⟩ := hrel
   rw [whole_jitStep_at env s i hstart] at hstep
   have h95 := whole_jitExec_done env _ i r0 s' hstep
@@ -76,8 +77,8 @@ theorem whole_exit_sim (env : Env) (haddr : Nat → Option Nat) (um ud : Bool) (
   cases hloc'
   have hais := (whole_arm_shape haddr s.pc i _ ais n harm).2 h95
   subst hais
-  obtain ⟨σ', h1, h2, h3, h4, h5⟩ := whole_exit_machine c (whole_tgt env.prog L) retAddr σ s a b hchk hrip hrel0 hret hretlt
-  refine ⟨σ', h1, h2, h3.trans hr0, ?_, h5, ?_⟩
+  obtain ⟨σ', h1, h2, h3, h4, h5, h6, h7⟩ := whole_exit_machine c (whole_tgt env.prog L) retAddr σ s a b hchk hrip hrel0 hret hretlt
+  refine ⟨σ', h1, h2, h3.trans hr0, ?_, h5, ?_, h6, h7, rfl⟩
   · rw [h4]; exact hrel0.mem
   · unfold topBytes at htop ⊢
     rw [h4]; exact htop
@@ -135,7 +136,7 @@ theorem whole_step_sim (env : Env) (haddr : Nat → Option Nat) (um ud : Bool) (
   rw [hloc] at hloc'
   cases hloc'
   have hb : b ≤ c.code.size := whole_locOf_le env.prog haddr um ud c.code L hv _ b hlocb
-  obtain ⟨k, σ', hk, hrel0', htop', hdisj⟩ :=
+  obtain ⟨k, σ', hk, hrel0', htop', -, -, -, hdisj⟩ :=
     hA i hopc c (whole_tgt env.prog L) haddr s.pc n a b retAddr ais σ env { s with pc := s.pc + 1 } s' harm hchk (by omega) hrip
       (rel0_pc retAddr σ s _ hrel0) rfl hstep
   refine ⟨k, σ', hk, fun hsome => ?_⟩
@@ -169,8 +170,8 @@ theorem whole_run_sim (env : Env) (haddr : Nat → Option Nat) (um ud : Bool) (c
   | zero => simp [EngineSem.jitRun] at hrun
   | succ fuel ih =>
     rcases whole_jitRun_done env s s' fuel r0 hrun with h1 | ⟨s1, h1, h2⟩
-    · obtain ⟨σ', hk, rest⟩ := whole_exit_sim env haddr um ud c L retAddr top σ s s' r0 hv hret hretlt hrel h1
-      exact ⟨1, σ', hk, rest⟩
+    · obtain ⟨σ', hk, h2, h3, h4, h5, h6, -⟩ := whole_exit_sim env haddr um ud c L retAddr top σ s s' r0 hv hret hretlt hrel h1
+      exact ⟨1, σ', hk, h2, h3, h4, h5, h6⟩
     · obtain ⟨k1, σ1, hk1, hrel1⟩ := whole_step_sim hA env haddr um ud c L retAddr top σ s s1 hv hcov hsize hrel h1
       have hrel1' := hrel1 (whole_jitRun_start env s1 s' fuel r0 h2)
       obtain ⟨k2, σ2, hk2, rest⟩ := ih σ1 s1 hrel1' h2
